@@ -1,7 +1,9 @@
 From Coq Require Import Extraction ExtrOcamlBasic.
 From LTV.C07 Require Import Model.
-From LTV.C14 Require Import Model.
+From LTV.C07 Require Import StaticMap.
+From LTV.C14 Require Import Model ModelDht.
 Set Extraction Optimize.
 Extraction Language OCaml.
 Extraction "extracted/c14_model.ml" parse_compact parse_compact6 parse_bencode_peers parse_normal normalize
-  pl_run udp_run http_receive_done tstate0 tx_connect tx_announce pton4 pton6 sort_and_unique.
+  pl_run udp_run http_receive_done tstate0 tx_connect tx_announce pton4 pton6 sort_and_unique
+  dht_envelope dht_datagram dht_reply_values sm_read dht ent_raw_string pex_apply k_r_nodes.
